@@ -254,7 +254,7 @@ def to_labels(obs):
     closed_at = []
     closing_threads = set()
     rel_hold = {}       # thread -> [entry names taken by its disconnect]
-    rx = {'mode': None, 'line': False, 'found': None, 'fails': 0, 'removed': False, 'clean': False, 'set_for': None,
+    rx = {'mode': None, 'line': False, 'found': None, 'fails': 0, 'removed': None, 'clean': False, 'set_for': None,
           'requeue': [], 'took': []}
     has_lock = any(e[1] == 'lk.acq' and e[2] == 'reqlock' for e in ev)
     notes = []
@@ -267,7 +267,7 @@ def to_labels(obs):
 
     def rx_cleanup_lazy():
         if rx['clean'] and not has_lock:
-            labels.append(['rxCleanup', False, ('took', rx['took'])])
+            labels.append(['rxCleanup', ('id', None), ('took', rx['took'])])
             rx.update(clean=False, took=[])
 
     for e in ev[start + 1:]:
@@ -332,12 +332,13 @@ def to_labels(obs):
             closing_threads.add(th)
         elif kind == 'l.pop' and is_rx:
             labels.append(['rxCleanPop'])
-            rx.update(clean=True, removed=False, mode='clean', took=[])
+            rx.update(clean=True, removed=None, mode='clean', took=[])
         elif kind == 'd.pop' and is_rx:
             if rx['mode'] == 'clean':
-                rx['removed'] = e[4] is not None
+                if e[4] is not None:
+                    rx['removed'] = e[4]       # the entry the implementation popped from active_requests
                 if not has_lock:
-                    rx['pending_label'] = ['rxCleanup', rx['removed'], ('took', rx['took'])]
+                    rx['pending_label'] = ['rxCleanup', ('id', rx['removed']), ('took', rx['took'])]
                     labels.append(rx['pending_label'])
                     rx.update(clean=False, mode=None)
             else:
@@ -361,7 +362,7 @@ def to_labels(obs):
                 rel_hold.setdefault(th, []).append(name)
         elif kind == 'lk.rel' and e[2] == 'reqlock' and is_rx:
             if rx['mode'] == 'clean':
-                labels.append(['rxCleanup', rx['removed'], ('took', rx['took'])])
+                labels.append(['rxCleanup', ('id', rx['removed']), ('took', rx['took'])])
                 rx.update(clean=False, mode=None, took=[])
             elif rx['mode'] == 'match':
                 labels.append(['rxMatch', ('id', rx['found']), ('took', rx['took'])])
@@ -423,8 +424,8 @@ def to_labels(obs):
         if lb[0] == 'peerEmit':
             idx = lb[4][1]
             lb[4] = sent[idx] if idx is not None and idx < len(sent) else None
-        if lb[0] == 'rxMatch' and isinstance(lb[1], tuple):
-            lb[1] = ids.get(lb[1][1]) if lb[1][1] is not None else None
+        if lb[0] in ('rxMatch', 'rxCleanup') and isinstance(lb[1], tuple):
+            lb[1] = ids.get(lb[1][1], 10 ** 6) if lb[1][1] is not None else None
         if lb[0] in ('rxMatch', 'rxCleanup') and isinstance(lb[2], tuple):
             lb[2] = [ids.get(n, 10 ** 6) for n in lb[2][1]]
     # callers
@@ -798,6 +799,9 @@ def assess(case, schedule, obs, L, replay_ans, judge_ans, res, ctx, shut_ans=Non
     j = judge_ans
     if j['first_parked'] is not None:
         out.append(('C11:no_parking', f'a request is parked with its key free (state {j["first_parked"]} of the run)'))
+    if j['first_lost'] is not None:
+        out.append(('C11:no_lost_request', 'a request whose caller has neither been answered, released nor timed out is '
+                    f'nowhere in the client any more (state {j["first_lost"]} of the run)'))
     if not j['no_double']:
         out.append(('C11:no_double_delivery', 'one received line was handed to two callers'))
     for i, v in enumerate(j['verdicts']):
